@@ -36,6 +36,7 @@ inductive FE where
   | fcc (n : Nat)                                   -- String.fromCharCode(n)
   | accFn (isSet : Bool) (f : FE)                   -- Object.getOwnPropertyDescriptor({get p() {…}}, "p").get  (or set p(v) / .set):
                                                     --   the accessor function an object initialiser creates HERE
+  | hostFn                                          -- a host (Go) function that returns what it received as This
   | fnCtor (f : FE)                                 -- Function("<body of f>") for a parameterless, nameless f
   | wproto (k : String)                             -- String.prototype / Number.prototype / Boolean.prototype / Object.prototype
   | defAcc (o : FE) (p : String) (t : String)       -- Object.defineProperty(o, "p", {get: <logs G t, returns "v"+t>,
